@@ -32,6 +32,7 @@ import (
 
 	"github.com/google/osv-scalibr/extractor"
 	"github.com/google/osv-scalibr/extractor/filesystem"
+	"github.com/google/osv-scalibr/purl"
 )
 
 type batch struct {
@@ -290,6 +291,14 @@ func substitute(ex *extractor.Package, name, version string) *extractor.Package 
 				}
 			}
 		}
+		// SBOM metadata carries the package URL itself
+		if f := nm.Elem().FieldByName("PURL"); f.IsValid() && f.Kind() == reflect.Pointer && !f.IsNil() {
+			if old, ok := f.Interface().(*purl.PackageURL); ok {
+				np := *old
+				np.Name, np.Version = name, version
+				f.Set(reflect.ValueOf(&np))
+			}
+		}
 		cp.Metadata = nm.Interface()
 	}
 	return &cp
@@ -324,7 +333,7 @@ func harvest(e *Env, o harvestOpts) (*harvestResult, error) {
 	scratch := func() string {
 		mu.Lock()
 		scratchN++
-		d := filepath.Join(e.Tmp, "gen", strconv.Itoa(scratchN))
+		d := filepath.Join(e.Tmp, "gen", strconv.Itoa(scratchN%97), strconv.Itoa(scratchN))
 		mu.Unlock()
 		return d
 	}
@@ -458,10 +467,11 @@ func harvest(e *Env, o harvestOpts) (*harvestResult, error) {
 			continue
 		}
 		for _, p := range b.Pkgs {
-			if p.Name == "" || p.Version == "" || p.Name == p.Version {
+			if p.Name == "" || p.Name == p.Version {
 				continue
 			}
-			if _, ok := exemplar[b.Ext]; !ok {
+			// prefer an exemplar with a version; the first one with a name otherwise
+			if old, ok := exemplar[b.Ext]; !ok || (old.Version == "" && p.Version != "") {
 				exemplar[b.Ext] = p
 			}
 		}
@@ -495,7 +505,7 @@ func harvest(e *Env, o harvestOpts) (*harvestResult, error) {
 	}
 	for n, inf := range byName {
 		if inf.Offline && exemplar[n] == nil {
-			h.Notes = append(h.Notes, n+": no package with name and version harvested from fixtures (no direct cases)")
+			h.Notes = append(h.Notes, n+": no package with a name harvested from fixtures (no direct cases)")
 		}
 	}
 	sort.Strings(h.Notes)
